@@ -42,7 +42,14 @@ def callees_of_term(prog, fn, t):
         return out
     out.append((path, "unresolved"))
     if f.get("trait"):
+        self_ty = None
+        if f.get("args") and not isinstance(f["args"][0], dict):
+            self_ty = fn.T[f["args"][0]]
         for im, item in prog.impl_candidates(path):
+            if self_ty is not None and self_ty[0] in ("adt", "int", "bool", "float", "tuple", "array", "slice", "ref", "closure"):
+                from .facts import unify
+                if not unify(im["self_ty"], self_ty, {}):
+                    continue
             out.append((item, "impl"))
     return out
 
